@@ -31,7 +31,7 @@ var c10Programs = []string{
 
 func (c10) counts(tier string) int {
 	if tier == "thorough" {
-		return 5000
+		return 2500
 	}
 	return 220
 }
